@@ -89,6 +89,22 @@ def main():
             fails += 1
             lab = 'construction.base_constructor_chain_runs_first' if sorted(got) == sorted(want) else 'construction.field_initialisers_once_before_the_body'
             print('FAIL label=%s program=%s detail=explicit super=%s: printed %s, expected %s' % (lab, json.dumps(src), exp_super, got, want))
+    # ---- explicit super(args): the applicable base constructor of lowest conversion cost runs, whatever the order of declaration
+    import itertools
+    CT = {'Dog': 'public constructor(Dog d) -> Base { echo("Base(Dog)"); return this; }', 'Animal': 'public constructor(Animal a) -> Base { echo("Base(Animal)"); return this; }',
+          'int': 'public constructor(int n) -> Base { echo("Base(int)"); return this; }', 'long': 'public constructor(long n) -> Base { echo("Base(long)"); return this; }'}
+    for order in list(itertools.permutations(['Dog', 'Animal', 'int', 'long']))[::3]:
+        src = ('class Animal { public constructor() -> Animal = default; }\nclass Dog extends Animal { public constructor() -> Dog { super(); return this; } }\n'
+               'class Base { ' + ' '.join(CT[k] for k in order) + ' }\n'
+               'class FromDog extends Base { public constructor(Dog d) -> FromDog { super(d); echo("FromDog"); return this; } }\n'
+               'class FromInt extends Base { public constructor() -> FromInt { super(7); echo("FromInt"); return this; } }\n'
+               'function main() -> void { Dog d = new Dog(); FromDog a = new FromDog(d); FromInt b = new FromInt(); }\n')
+        want = ['Base(Dog)', 'FromDog', 'Base(int)', 'FromInt']
+        rc, out = run(bloch, src); n += 1
+        got = [l.strip() for l in out.strip().split('\n') if l.strip()]
+        if rc != 0 or got != want:
+            fails += 1
+            print('FAIL label=construction.explicit_super_runs_the_cheapest_applicable_base_constructor program=%s detail=base constructors declared in the order %s: printed %s, expected %s' % (json.dumps(src), list(order), got, want))
     print(json.dumps(dict(oracle_checks=n, oracle_failures=fails)))
     sys.exit(1 if fails else 0)
 main()
